@@ -18,7 +18,8 @@ THEOREMS = ["GitAi.Sys.no_invention", "GitAi.Sys.ghost_only_from_agent_edit", "G
             "GitAi.Sys.witness_path_checkout_loses_line_removed_after_staging"]
 # findings the line-identity model cannot see (token level / commit coordinates): runs in which the content oracle
 # reports one of them are not held against the model
-EXPLAINED = ("reconstruction-keeps-ai-on-line-rewritten-by-person", "line-added-by-commit-was-modified-again-unstaged")
+REINDENT_SIG = "reconstruction-credits-reindented-human-line-below-ai-line"
+EXPLAINED = ("reconstruction-keeps-ai-on-line-rewritten-by-person", "line-added-by-commit-was-modified-again-unstaged", REINDENT_SIG)
 SESS = ["s1", "s2"]
 HASH2S = {S.hash_of(s): s for s in SESS}
 
@@ -41,6 +42,8 @@ class Walk:
         self.commits = []
         self.overlap = {}         # sha -> {path: lines added by the commit AND modified again (unstaged) at commit time}
         self.human_inplace = set()  # files in which a person rewrote/modified lines in place
+        self.human_reindent = set()  # files in which a person re-indented lines (whitespace only)
+        self.recon_reindent = set()  # ... and that then went through an attribution reconstruction
         self.recon_taint = set()    # ... and that then went through an attribution reconstruction
         self.ai_lines = {}          # path -> session -> texts (normalised) the session wrote into that file
         self.obs = []               # what the oracle saw at every check (for correspondence:discard-e2e)
@@ -134,6 +137,8 @@ class Walk:
         if who == "human" and kind != "reindent":
             # inserting next to / deleting / replacing AI lines can all amount to rewriting them in place
             self.human_inplace.add(p)
+        if who == "human" and kind == "reindent":
+            self.human_reindent.add(p)
         self.log(op="edit", who=who, path=p, kind=kind, content=lines)
 
     RECON = (("reset", "--soft"), ("reset", "--mixed"), ("stash", "pop"), ("stash", "apply"), ("rebase",), ("cherry-pick",),
@@ -152,6 +157,7 @@ class Walk:
                  files={p: self.read_lines(p) for p in self.files() if self.r.exists(p)})
         if rc == 0 and any(tuple(args[:len(k)]) == k for k in self.RECON):
             self.recon_taint |= self.human_inplace
+            self.recon_reindent |= self.human_reindent
         return rc
 
     def op_commit(self):
@@ -446,11 +452,21 @@ class Walk:
             mine |= self.ai_lines.get(q, {}).get(s, set())
         return any(t not in now for t in mine)
 
+    def line_above_is_sessions(self, p, ln, s):
+        lines = self.read_lines(p) if self.r.exists(p) else []
+        return 2 <= ln <= len(lines) + 1 and ln - 2 < len(lines) and norm(lines[ln - 2]) in self.wrote[s]
+
     def fail(self, kind, where, sha, p, ln, text, s):
         base = p[:-6] if p.endswith(".moved") else p
         if text is not None and (text.lstrip().startswith("hum-") or self.is_tweak_of_own(text, s)) and \
                 (p in self.recon_taint or base in self.recon_taint) and self.session_line_gone(p, base, s):
             sig = "reconstruction-keeps-ai-on-line-rewritten-by-person"
+        elif text is not None and text != text.lstrip() and text.lstrip().startswith("hum-") and \
+                (p in self.recon_reindent or base in self.recon_reindent) and self.line_above_is_sessions(p, ln, s):
+            # known finding: a person re-indented a person's line that directly follows a line of session s; a
+            # reconstruction through a diff (reset --soft/--mixed, amend, stash pop, replay) lets the inserted indentation
+            # inherit the attribution of the line break in front of it and nothing else on the line is attributed
+            sig = REINDENT_SIG
         elif (kind == "note" and ln in self.overlap.get(sha, {}).get(p, set())) or \
                 (kind == "blame" and any(p in ov or base in ov for ov in self.overlap.values())):
             sig = "line-added-by-commit-was-modified-again-unstaged"
@@ -681,6 +697,16 @@ def run(tier, seed):
                 res.oracle_failure("person-line-credited-to-session:commit-history",
                                    {"scenario": {k: v for k, v in sc.items() if not k.startswith("_")}, "detail": d},
                                    what="a line whose last substantive change was not a session's is listed for a session")
+    # walks that found something in the past run first (corpus/C03/walks.jsonl)
+    cw = os.path.join(C.VERIF, "corpus", PROP, "walks.jsonl")
+    if os.path.exists(cw):
+        by_len = {}
+        for ln_ in open(cw):
+            if ln_.strip():
+                j_ = json.loads(ln_)
+                by_len.setdefault(int(j_["length"]), []).append(int(j_["seed"]))
+        for L_, seeds_ in sorted(by_len.items()):
+            phase_walks(res, seeds_, L_)
     phase_recipes(res, seed, 1 if tier == "quick" else 12)
     n = 64 if tier == "quick" else 2000
     phase_walks(res, [seed * 100000 + i for i in range(n)], 25 if tier == "quick" else 40)
